@@ -26,13 +26,14 @@ class Profile:
         self.fin_partial = r.choice([0, 0, 1, 20, 47, 48, 49])
         self.timing = True
         self.chunk = r.choice([None, 1000, 100, 4096, 1000, 7])
+        self.space = r.choice([None, 60, 2000, 100])      # send-buffer room seen by NON-blocking sends only
 
     def mt(self, t: int) -> int:
         return self.type_map.get(t, t)
 
     def to_json(self):
         return {"seed": self.seed, "timecode": self.timecode, "sizes": self.sizes, "type_map": self.type_map,
-                "die_mode": self.die_mode, "fin_partial": self.fin_partial, "chunk": self.chunk}
+                "die_mode": self.die_mode, "fin_partial": self.fin_partial, "chunk": self.chunk, "space": self.space}
 
 
 def concretise(f: Dict[str, Any], prof: Profile) -> Dict[str, Any]:
@@ -49,7 +50,7 @@ def concretise(f: Dict[str, Any], prof: Profile) -> Dict[str, Any]:
 
 def replay(beh: List[dict], prof: Optional[Profile] = None, log_level: int = 100) -> Hub:
     prof = prof or Profile(0)
-    h = Hub(timecode=prof.timecode, timing=prof.timing, log_level=log_level, salt=prof.salt, chunk=prof.chunk)
+    h = Hub(timecode=prof.timecode, timing=prof.timing, log_level=log_level, salt=prof.salt, chunk=prof.chunk, space=prof.space)
     try:
         for e in beh:
             if not h.alive():
